@@ -51,6 +51,10 @@ def conc(model, v, cap=600, depth=0):
     if isinstance(v, models.SStrId):
         r = model.eval(v.t, model_completion=True)
         return models.strid_value(r.as_long()) if z3.is_int_value(r) else str(r)
+    if isinstance(v, models.SDatetime):
+        return {"fields": [conc(model, f) for f in v.fields]}
+    if isinstance(v, SFloat):
+        return {"$sym": repr(v)}
     if isinstance(v, (tuple, list)):
         return type(v)(conc(model, e, cap, depth) for e in v)
     if isinstance(v, dict):
